@@ -300,12 +300,12 @@ def run (cs : List (CObj α)) (es : List (Ev α)) : List (CObj α) := es.foldl (
 /-! ### geometry of the random node creators
 `input_output_handler/input_handler/random_node_creator/{dipole,water}_random_node_creator.py`:
 `fill_root_node` stores the random centre as the position of the root node and the positions below (one coordinate
-each; `correct_position` is `x % L`) as its leaves. -/
+each; `correct_position` is `JF.pywrap`, i.e. `r = x % L; r if r != L else 0.0`, per entry) as its leaves. -/
 
 /-- `DipoleRandomNodeCreator._create_random_dipole`, coordinate `d` of `position_one` and `position_two`:
 `center[d] ± random_direction[d] * dipole_separation`, corrected -/
 def dipoleCoord (l c dir s : α) : α × α :=
-  (pymod o (c + dir * s) l, pymod o (c - dir * s) l)
+  (pywrap o (c + dir * s) l, pywrap o (c - dir * s) l)
 
 /-- `WaterRandomNodeCreator._create_random_water_molecule`, coordinate `d` of (hydrogen one, oxygen, hydrogen two):
 `current_center_component = (oh_vector_one[d] + oh_vector_two[d]) / 3`, `oxygen = center[d] - current_center_component`,
@@ -313,7 +313,7 @@ def dipoleCoord (l c dir s : α) : α × α :=
 def waterCoord (l c a b : α) : α × α × α :=
   let cc := (a + b) / o.ofInt 3
   let ox := c - cc
-  (pymod o (ox + a) l, pymod o ox l, pymod o (ox + b) l)
+  (pywrap o (ox + a) l, pywrap o ox l, pywrap o (ox + b) l)
 
 def dipoleLeaves : List α → List α → List α → α → List α × List α
   | l :: L, c :: C, d :: D, s =>
